@@ -8,6 +8,8 @@ import json, os, re, sys, time, traceback
 
 VERIF = os.path.dirname(os.path.dirname(os.path.dirname(os.path.abspath(__file__))))
 KNOWN_FILE = os.path.join(VERIF, 'known_findings.json')
+# self-tests redirect evidence so that runs against scratch copies never overwrite the evidence of /repo
+EVID_DIR = os.environ.get('VERIF_EVIDENCE_DIR') or os.path.join(VERIF, 'evidence')
 
 
 class AnalysisError(Exception):
@@ -93,7 +95,7 @@ class Check:
         for k, e in kn.items():
             if k not in seen_keys:
                 print(f'NOTE: known finding no longer reproduces (tree repaired?): {k}')
-        replay_dir = os.path.join(VERIF, 'evidence', 'replay')
+        replay_dir = os.path.join(EVID_DIR, 'replay')
         if os.path.isdir(replay_dir):
             for fn in os.listdir(replay_dir):
                 if fn.startswith(self.pid + '-'):
@@ -154,8 +156,8 @@ class Check:
             'wall_s': round(time.time() - self.t0, 3),
             'violations': nviol,
         }
-        os.makedirs(os.path.join(VERIF, 'evidence'), exist_ok=True)
-        with open(os.path.join(VERIF, 'evidence', f'{self.pid}.json'), 'w') as f:
+        os.makedirs(EVID_DIR, exist_ok=True)
+        with open(os.path.join(EVID_DIR, f'{self.pid}.json'), 'w') as f:
             json.dump(ev, f, indent=1, default=str)
 
 
